@@ -291,18 +291,22 @@ func mutateView(r *Rng, roots *[]*MNode, k int) {
 			} else {
 				n.Stat.Xattrs = map[string][]byte{"user.q": {1}} // xattrs are not part of the identity
 			}
-		case 11: // rename (delete + add elsewhere in order)
-			n.Name = Pick(r, NamePool)
+		case 11: // rename (delete + add elsewhere in order); sibling names stay unique
 			h := parents[n]
-			seen := 0
-			for _, x := range *h {
-				if x.Name == n.Name {
-					seen++
+			cand := Pick(r, NamePool)
+			for tries := 0; ; tries++ {
+				clash := false
+				for _, x := range *h {
+					if x != n && x.Name == cand {
+						clash = true
+					}
 				}
+				if !clash {
+					break
+				}
+				cand += "~r"
 			}
-			if seen > 1 {
-				n.Name = n.Name + "~r"
-			}
+			n.Name = cand
 		}
 	}
 	pathSortView(*roots)
